@@ -8,6 +8,7 @@
    path of cost <= lim" resp. "reported for a target on a reverse path of cost 1..lim" (lim = -1: no limit). *)
 From Coq Require Import Permutation Lia.
 From PlzV Require Import Base.Harness Model.C23 Proof.C23_Spec Proof.C23 Proof.C23_Gen.
+From PlzV Require Import Proof.C23_Rev Proof.C23_Exact Proof.C23_Bfs Proof.C23_Indent.
 
 (* `plz query somepath`: a path is printed iff one exists, and it is a real chain between the two ends
    (with and without --hidden) *)
@@ -86,4 +87,88 @@ Proof.
   - cbn [map fst w_rev]. repeat (constructor; [cbn [In]; intros Hx; repeat (destruct Hx as [Hx|Hx]; [discriminate|]); exact Hx|]). constructor.
   - constructor; [vm_compute; discriminate | constructor].
   - constructor; [vm_compute; apply Permutation_refl | constructor].
+Qed.
+
+(* ------------------------------------------------------------------------------------------- *)
+(* Where the two refuted conjuncts DO hold exactly (all graphs, root lists, enumeration orders; no bound). *)
+
+(* `plz query revdeps --level -1` (no limit) is exact - no side condition: the `depth > 0` test never loses a
+   target that has a dependency chain of positive cost to a root *)
+Definition C23_revdeps_unlimited_statement : Prop :=
+  forall g roots chs hid, NoDup (map fst g) -> Forall (in_graph g) roots ->
+    Forall2 (fun r ch => Permutation ch (children g r)) roots chs ->
+    exists out, revdeps_with g roots chs hid (-1) = Some out /\
+      forall x, In x out <-> rwithin g hid roots (-1) x.
+
+Theorem C23_revdeps_unlimited : C23_revdeps_unlimited_statement.
+Proof. exact revdeps_unlimited_exact. Qed.
+Print Assumptions C23_revdeps_unlimited.
+
+(* `plz query revdeps --hidden --level lim` is exact for every limit: all edges cost 1, FIFO + dedup-on-push = BFS *)
+Definition C23_revdeps_hidden_statement : Prop :=
+  forall g roots chs lim, NoDup (map fst g) -> Forall (in_graph g) roots ->
+    Forall2 (fun r ch => Permutation ch (children g r)) roots chs ->
+    exists out, revdeps_with g roots chs true lim = Some out /\
+      forall x, In x out <-> rwithin g true roots lim x.
+
+Theorem C23_revdeps_hidden : C23_revdeps_hidden_statement.
+Proof. exact revdeps_hidden_exact. Qed.
+Print Assumptions C23_revdeps_hidden.
+
+(* `plz query deps --level lim` is exact whenever no target is reachable from the roots at two different costs
+   (trees, layered DAGs, ...); unique_costb is an executable sufficient test; hence a target can only be omitted
+   (the known finding) when some target is reachable by two dependency paths of different cost *)
+Definition C23_deps_unique_cost_statement : Prop :=
+  (forall g roots hid lim, (-1 <= lim)%Z -> unique_cost g hid roots ->
+     exists out, deps_query g roots hid lim = Some out /\
+       forall t, In t (map snd out) <-> dwithin g hid roots lim t)
+  /\ (forall g hid roots, unique_costb g hid roots = true -> unique_cost g hid roots)
+  /\ (forall g roots hid lim out t, (-1 <= lim)%Z -> deps_query g roots hid lim = Some out ->
+       dwithin g hid roots lim t -> ~ In t (map snd out) -> ~ unique_cost g hid roots).
+
+Theorem C23_deps_unique_cost : C23_deps_unique_cost_statement.
+Proof. exact (conj deps_exact_unique_cost (conj unique_costb_sound deps_miss_needs_two_costs)). Qed.
+Print Assumptions C23_deps_unique_cost.
+
+(* the indentation of a printed line = (cost of the dependency chain by which the target was first reached) - 1.
+   deps_roots_g is deps_roots with a ghost call stack and a ghost log of (label, stack when it entered `done`);
+   its non-ghost part is the model's result; every target enters `done`, the log and the output at most once *)
+Definition C23_deps_indent_statement : Prop :=
+  forall g roots hid lim,
+    exists done out log,
+      deps_roots_g g hid lim roots (([], []), []) = Some ((done, out), log) /\
+      deps_query g roots hid lim = Some out /\
+      map fst log = done /\ NoDup done /\ NoDup (map snd out) /\
+      forall lv l, In (lv, l) out -> exists p, In (l, p) log /\ reach_path g hid roots p l (lv + 1)%Z.
+
+Theorem C23_deps_indent : C23_deps_indent_statement.
+Proof. exact deps_indent_first_reach. Qed.
+Print Assumptions C23_deps_indent.
+
+(* Non-vacuity.  w_cyc: x (2) depends on r (0), r's hidden sub-target _r#b (1) depends on x - the rules depend on
+   each other cyclically; revdeps of r reports x and r itself.  w_rev with --hidden: level 3 now reaches d (2) but
+   not e (3).  w_layers / w_tree satisfy unique_cost and the level-limited deps output is not trivial. *)
+Definition w_cyc : graph := [(0, mkT [] 0 false [] []); (1, mkT [2] 0 true [] []); (2, mkT [0] 2 false [] [])]%N.
+
+Example C23_deepening_nonvacuous :
+  NoDup (map fst w_cyc) /\ Forall (in_graph w_cyc) [0%N]
+  /\ Forall2 (fun r ch => Permutation ch (children w_cyc r)) [0%N] [[1%N]]
+  /\ revdeps_with w_cyc [0%N] [[1%N]] false (-1) = Some [2; 0]%N
+  /\ revdeps_with w_cyc [0%N] [[1%N]] false 1 = Some [2%N]
+  /\ revdeps_with w_rev [5%N] [[]] true 3 = Some [0; 1; 4; 2]%N
+  /\ revdeps_with w_rev [5%N] [[]] true 4 = Some [0; 1; 4; 2; 3]%N
+  /\ unique_cost w_layers false [0%N] /\ unique_cost w_tree false [0%N]
+  /\ deps_query w_layers [0%N] false 2 = Some [(0%Z, 1%N); (1%Z, 3%N); (1%Z, 4%N); (0%Z, 2%N)]
+  /\ deps_query w_layers [0%N] false 3 = Some [(0%Z, 1%N); (1%Z, 3%N); (2%Z, 5%N); (1%Z, 4%N); (0%Z, 2%N)]
+  /\ ~ unique_cost w_deps false [3%N].
+Proof.
+  split; [|split; [|split; [|split; [|split; [|split; [|split; [|split; [|split; [|split; [|split]]]]]]]]]];
+    try (vm_compute; reflexivity).
+  - cbn [map fst w_cyc]. repeat (constructor; [cbn [In]; intros Hx; repeat (destruct Hx as [Hx|Hx]; [discriminate|]); exact Hx|]). constructor.
+  - constructor; [vm_compute; discriminate | constructor].
+  - constructor; [vm_compute; apply Permutation_refl | constructor].
+  - apply unique_costb_sound. vm_compute. reflexivity.
+  - apply unique_costb_sound. vm_compute. reflexivity.
+  - exact (deps_miss_needs_two_costs w_deps [3%N] false 3%Z _ 5%N ltac:(lia) eq_refl w_deps_within
+             ltac:(vm_compute; intros Hin; repeat (destruct Hin as [Hin|Hin]; [discriminate|]); exact Hin)).
 Qed.
